@@ -15,7 +15,7 @@ import vlib
 
 PID = "C10"
 SPEC, CFG, DIAG = "Tr_Control.tla", "Tr_Control.cfg", "Tr_Control_diag.cfg"
-SIZES = {"quick": dict(runs=240, files=16, enum_len=4, enum_sample=170), "thorough": dict(runs=14000, files=64, enum_len=4, enum_sample=None)}
+SIZES = {"quick": dict(runs=240, files=16, enum_len=4, enum_sample=170, deep=6), "thorough": dict(runs=14000, files=64, enum_len=4, enum_sample=None, deep=150)}
 
 
 def model_check(rep, wd, tier):
@@ -77,11 +77,18 @@ def run(tier, seed):
         tp = os.path.join(wd, f"run{i}.ndjson")
         if len(bad) >= 4:
             return "skipped", [], "", tp
-        rc, out, err = ctlrun.run_script(os.path.join(bdir, "texel-" + net), script, sseed, tp, watchdog=25)
+        rc, out, err = ctlrun.run_script(os.path.join(bdir, "texel-" + net), script, sseed, tp, watchdog=90 if kind == "deep_tree" else 25)
         if rc != 0:
             bad.append(i)
         return rc, out, err, tp
     results = vlib.pmap(one, jobs, workers=10)
+    # three-level helper trees (22+ threads each) are run two at a time, after the others, with a longer watchdog
+    djobs = []
+    for _ in range(sz["deep"]):
+        kind, script = ctlrun.gen_script(rnd, "deep_tree")
+        djobs.append((len(jobs) + len(djobs), kind, script, rnd.randint(1, 10**9), rnd.choice(sessions.NETS)))
+    results += vlib.pmap(one, djobs, workers=2)
+    jobs += djobs
     files = [os.path.join(wd, f"ctl.{k}.ndjson") for k in range(sz["files"])]
     fh = [open(f, "w") for f in files]
     kinds = {}
@@ -136,7 +143,7 @@ def run(tier, seed):
     rep.cov["evaluations"] = len(jobs)
     rep.cov["distinct_nontrivial"] = len({(json.dumps(j[2]), j[3]) for j in jobs})
     rep.cov["rule"] = ("seeded command scripts {go/finish, go/stop, ponder/ponderhit, ponder/stop, back-to-back go, Threads change between searches, quit during "
-                       "search, mixed, and every command order of length <= 2 plus a seeded sample of the orders of length 3..4 over a 9-command alphabet} x Threads 1..8 x seeded PCT-style schedule perturbation at the hooked synchronisation points; distinct (script, schedule seed)")
+                       "search, mixed, and every command order of length <= 2 plus a seeded sample of the orders of length 3..4 over a 9-command alphabet} x Threads 1..8 (plus a few 'deep_tree' runs with 22..27 threads, where the helper tree has three levels) x seeded PCT-style schedule perturbation at the hooked synchronisation points; distinct (script, schedule seed)")
     rep.assumptions += ["real-code schedules are sampled (seeded priority perturbation), not enumerated; exhaustive interleaving coverage is on the TLA+ design model only",
                         "events carry a global sequence number taken inside the critical section that protects the state change"]
     return rep.finish()
